@@ -411,6 +411,40 @@ pub fn walk_wide(sink: &mut Sink, seed: u64, run_id: u64, steps: usize, extreme_
     for u in USERS {
         r.apply(sink, &json!({"m":"faucet","a":u,"d":"IBCTIA","x": "30000000000000000000000000000"}));
     }
+    // a scripted full cycle at this run's scale first (deep flows are rare in a random walk): stake, ack, rewards,
+    // unstake by two users, submit, return (exact / short / long), withdraw, fee withdrawal, recovery of a failed packet
+    {
+        let a1 = big(&mut rng);
+        let a2 = big(&mut rng);
+        let mut script: Vec<Value> = vec![
+            json!({"m":"liquid_stake","s":"u1","funds":[["IBCTIA",a1.to_string()]],"mint_to":"","to_native":"none","expected":-1}),
+            json!({"m":"liquid_stake","s":"u2","funds":[["IBCTIA",a2.to_string()]],"mint_to":"n:u2","to_native":"none","expected":-1}),
+            json!({"m":"ibc_ack","seq":1,"outcome":"ok"}), json!({"m":"ibc_ack","seq":2,"outcome":"err"}), json!({"m":"ibc_ack","seq":3,"outcome":"timeout"}),
+            json!({"m":"recover","s":"u3","paginated":"true","has_sel":false,"sel":[],"receiver":""}),
+            json!({"m":"recover","s":"u3","paginated":"none","has_sel":false,"sel":[],"receiver":"n:u2"}),
+            json!({"m":"hook","inner":"receive_rewards","channel":"channel-1","from":"collector","amt":(a1 / 7 + 1).to_string(),"b":0}),
+            json!({"m":"liquid_unstake","s":"u1","funds":[["LST",(a1 / 3 + 1).to_string()]]}),
+            json!({"m":"liquid_unstake","s":"u1","funds":[["LST",(a1 / 5 + 1).to_string()]]}),
+        ];
+        for c in script.drain(..) {
+            r.apply(sink, &c);
+        }
+        let due = View::of(&r).batches().first().and_then(|b| b["due"].as_i64()).unwrap_or(0) as u64;
+        r.apply(sink, &json!({"m":"time","t":due.max(r.w.now_s())}));
+        r.apply(sink, &json!({"m":"submit_batch","s":"u2"}));
+        let v = View::of(&r);
+        if let Some(b) = v.batches().iter().find(|b| b["status"] == "submitted") {
+            let exp = ju(b, "expected");
+            let due = b["due"].as_i64().unwrap_or(0) as u64;
+            r.apply(sink, &json!({"m":"time","t":due.max(r.w.now_s())}));
+            let amt = match rng.gen_range(0..3) { 0 => exp.saturating_sub(1).max(1), 1 => exp + 1, _ => exp.max(1) };
+            r.apply(sink, &json!({"m":"hook","inner":"receive_unstaked_tokens","channel":"channel-1","from":"staker","amt":amt.to_string(),"b":ju(b,"id") as u64}));
+            r.apply(sink, &json!({"m":"withdraw","s":"u1","b":ju(b,"id") as u64}));
+            r.apply(sink, &json!({"m":"withdraw","s":"u1","b":ju(b,"id") as u64}));
+        }
+        let fees_now = ju(View::of(&r).c(), "fees");
+        r.apply(sink, &json!({"m":"fee_withdraw","s":"admin","amt":fees_now.to_string()}));
+    }
     for _ in 0..steps {
         let v = View::of(&r);
         let user = *USERS.choose(&mut rng).unwrap();
